@@ -797,7 +797,11 @@ func init() {
 				js = append(js, job("fit", "H08a", "n", n, "kinds", k))
 			}
 			for _, k := range kindSeqs(n) {
-				js = append(js, job("fit", "H08d", "n", n, "kinds", k))
+				if tier == "thorough" || k%2 == 0 {
+					j := job("fit", "H08d", "n", n, "kinds", k)
+					j.Prio = 1
+					js = append(js, j)
+				}
 			}
 			js = append(js, job("fit", "H08b"), job("fit", "H08c"))
 			for _, k := range kindSeqs(n) {
@@ -818,7 +822,7 @@ func init() {
 		MustReach:      []string{"C08.history.definition-verdict-independent-of-history", "C08.frame.no-state-survives-a-call", "C08.frame.accumulators-are-per-call", "C08.history.decode-independent-of-history", "C08.encode.identical-bytes-for-identical-files", "C08.encode.output-decodes", "C08.sequence.decode-independent-of-history", "C08.sequence.encode-independent-of-history", "C08.frame.encode-writes-no-shared-object", "C08.sequence.encode-independent-of-earlier-encodes"},
 		NoNativeReplay: map[string]bool{"C08.frame.accumulators-are-per-call": true, "C08.frame.no-state-survives-a-call": true, "C08.frame.encode-writes-no-shared-object": true},
 		Bounds: map[string]interface{}{
-			"quick":    "shared-write frame: Decode (with both counting options), DecodeChained, CheckIntegrity, DecodeHeader, DecodeHeaderAndFileID and Encode on every model stream with n = 2 records plus a stream with the accumulated record sources; call sequences: Decode(B), then Decode/Encode/CheckIntegrity/DecodeChained on a stream A with two activity messages (arbitrary timestamps and local timestamps), then Decode(B) again, for every model stream B with n = 2, results and re-encoded bytes compared; history independence: one record with arbitrary valid accumulated sources decoded from an arbitrary state of the three package-level accumulators (any history's effect is some value of them) versus the fresh state; Encode determinism: two records with different fields under every map iteration order; Encode on hand-built Files: per profile message (first hosting file type) a File with every field set and strings of 2 arbitrary ASCII characters is encoded, then the same File with strings of 0..3 and of 0..5 characters, then the first again: no pre-existing object written, identical bytes (also after an Encode that failed part-way); Hwide8: two decodes of streams with a 90-field definition; H08f: the verdict of validateFieldDef on an arbitrary definition of a profile message (every fourth message) is the same before and after the same definition was validated for an arbitrary unknown message number",
+			"quick":    "shared-write frame: Decode (with both counting options), DecodeChained, CheckIntegrity, DecodeHeader, DecodeHeaderAndFileID and Encode on every model stream with n = 2 records plus a stream with the accumulated record sources; call sequences: Decode(B), then Decode/Encode/CheckIntegrity/DecodeChained on a stream A with two activity messages (arbitrary timestamps and local timestamps), then Decode(B) again, for every second model stream B with n = 2 (all of them in thorough), results and re-encoded bytes compared; (H08g) a stream whose first time value is a local timestamp followed by compressed-timestamp records, decoded fresh, after decodes of a model stream, and as the second file of a chain (every fifth model stream); history independence: one record with arbitrary valid accumulated sources decoded from an arbitrary state of the three package-level accumulators (any history's effect is some value of them) versus the fresh state; Encode determinism: two records with different fields under every map iteration order; Encode on hand-built Files: per profile message (first hosting file type) a File with every field set and strings of 2 arbitrary ASCII characters is encoded, then the same File with strings of 0..3 and of 0..5 characters, then the first again: no pre-existing object written, identical bytes (also after an Encode that failed part-way); Hwide8: two decodes of streams with a 90-field definition; H08f: the verdict of validateFieldDef on an arbitrary definition of a profile message (every fourth message) is the same before and after the same definition was validated for an arbitrary unknown message number",
 			"thorough": "as quick with n = 3 (every third of the 1000 kind orders), every hosting file type, H08f for every message",
 		},
 		Outside: []string{"'equal to what a fresh process returns' is taken as 'equal to the run from the interpreted initial state of the package'", "json.go's buffer pool is not on any decode/encode path (no write to it is recorded) and is not claimed",
